@@ -744,6 +744,13 @@ func genSeq(r *Rng, mode string, steps int) *Enc {
 					d[i] = Pick(r, big)
 				}
 			}
+			if r.Chance(8) {
+				// distinct floats closer to each other than any plausible tolerance: still ordered exactly
+				near := []any{4.7e-10, 1e-12, 6.8e-10, 2.2e-11, 0.0, -3e-10, 1.0, 1.0 + 1.0/(1<<40), 1.0 - 1.0/(1<<41), 1.0 + 1.0/(1<<39), nil}
+				for i := range d {
+					d[i] = Pick(r, near)
+				}
+			}
 			if r.Chance(50) { // few distinct values: many ties
 				for i := range d {
 					d[i] = d[r.Intn(min(3, n))]
@@ -754,8 +761,8 @@ func genSeq(r *Rng, mode string, steps int) *Enc {
 		s.pool = []*DF{df}
 		s.names = []string{"a", "b", "c", "zz"}
 	case "c07":
-		s.kinds = []string{"dedup", "dedupin"}
-		steps = r.Range(1, 2)
+		s.kinds = []string{"dedup", "dedupin", "dedup", "dedupin", "setcell", "fillna"}
+		steps = r.Range(1, 3)
 		n := r.SmallN() + r.Intn(6)
 		df := dataframe.NewDataFrame()
 		colAlpha := [][]any{
